@@ -31,6 +31,7 @@ DEFAULT_FLAGS = {
     "resolve_conditionals": False,
     "min_dl_var": 0,
     "max_dl_var": 0,
+    "expect_all_done": False,
 }
 
 DEFAULT_SCHED = {
@@ -225,7 +226,8 @@ def build_scheduler(world, flags, sc):
 
         return HostileScheduler(
             seed=world.get("seed", 0), runtime=rt, lookahead=la, retract_schedules=sc["retract"],
-            release_taskgraphs=sc["rtg"], cancel_rate=sc.get("cancel_rate", 0.1), _flags=flags,
+            release_taskgraphs=sc["rtg"], cancel_rate=sc.get("cancel_rate", 0.1),
+            cancel_cond_children=sc.get("cancel_cond_children", False), _flags=flags,
         )
     raise ValueError(kind)
 
@@ -376,3 +378,120 @@ def max_demand_fits(world):
             if not ok:
                 return False
     return True
+
+
+def gen_feasible_world(rnd: random.Random):
+    """Work-conserving policy (EDF/FIFO/LSF without deadline enforcement), finite releases, every
+    strategy fits some empty worker, generous timeout: the run must finish everything (C05)."""
+    while True:
+        w = gen_world(rnd, kinds=("edf", "fifo", "lsf"), closed_loop=True)
+        for g in w["graphs"]:
+            if g["policy"]["type"] == "periodic":
+                g["policy"] = {"type": "fixed", "period": rnd.randint(1, 8), "n": rnd.randint(1, 3), "start": rnd.randint(0, 4)}
+        w["sched"]["enforce"] = False
+        w["sched"]["runtime"] = 0
+        w["flags"].update({"drop_skipped": False, "timeout": 5000, "expect_all_done": True, "variance": rnd.choice([0, 0, 30])})
+        if max_demand_fits(w):
+            return w
+
+
+def directed_worlds():
+    """Hand-written worlds that force the rare paths regardless of the seed."""
+    gpu1 = [R("gpu", "any", 1)]
+    P = lambda rt, dem=gpu1: {"name": f"P{rt}", "strats": [{"dem": dem, "rt": rt, "bs": 1}]}  # noqa: E731
+    one_gpu = [[[I("gpu", "g1", 1)]]]
+    out = []
+    # same-microsecond finish / release / placement / scheduler events: unit tasks in a chain + a contender
+    out.append({
+        "name": "same_us_chain",
+        "profiles": [P(1)],
+        "graphs": [
+            {"name": "G0", "jobs": [{"name": "A", "profile": 0, "children": ["B"]}, {"name": "B", "profile": 0, "children": ["C"]},
+                                    {"name": "C", "profile": 0}], "policy": {"type": "fixed", "period": 1, "n": 3, "start": 0}, "dv": [0, 0]},
+        ],
+        "pools": one_gpu, "sched": {"kind": "edf", "runtime": 0}, "flags": {"timeout": 2000, "expect_all_done": True}, "seed": 1,
+    })
+    # worker not ready: two tasks planned onto the same single-gpu pool at the same time by a hostile policy
+    out.append({
+        "name": "worker_not_ready",
+        "profiles": [P(3)],
+        "graphs": [{"name": "G0", "jobs": [{"name": "A", "profile": 0}, {"name": "B", "profile": 0}, {"name": "C", "profile": 0}],
+                    "policy": {"type": "fixed", "period": 1, "n": 2, "start": 0}, "dv": [0, 0]}],
+        "pools": one_gpu, "sched": {"kind": "hostile", "runtime": 1, "cancel_rate": 0.0, "lookahead": 0},
+        "flags": {"timeout": 200}, "seed": 3,
+    })
+    # task not ready: children planned before their parents finish (lookahead)
+    out.append({
+        "name": "task_not_ready",
+        "profiles": [P(4)],
+        "graphs": [{"name": "G0", "jobs": [{"name": "A", "profile": 0, "children": ["B", "C"]}, {"name": "B", "profile": 0, "children": ["D"]},
+                                           {"name": "C", "profile": 0, "children": ["D"]}, {"name": "D", "profile": 0}],
+                    "policy": {"type": "fixed", "period": 2, "n": 2, "start": 1}, "dv": [0, 0]}],
+        "pools": [[[I("gpu", "g1", 2)], [I("gpu", "g2", 1)]]],
+        "sched": {"kind": "hostile", "runtime": 0, "cancel_rate": 0.0, "lookahead": 20, "rtg": True},
+        "flags": {"timeout": 200}, "seed": 5,
+    })
+    # cancellation with pending placements, skip after schedule (retract), cascade through a join
+    out.append({
+        "name": "cancel_cascade",
+        "profiles": [P(2)],
+        "graphs": [{"name": "G0", "jobs": shape_jobs("two_cond", random.Random(1), 1), "policy": {"type": "fixed", "period": 3, "n": 3, "start": 0}, "dv": [0, 50]}],
+        "pools": [[[I("gpu", "g1", 2)]]],
+        "sched": {"kind": "hostile", "runtime": 1, "cancel_rate": 0.3, "lookahead": 0, "retract": True},
+        "flags": {"timeout": 300, "drop_skipped": True, "frequency": 2}, "seed": 9,
+    })
+    # deadline enforcement: EDF cancels hopeless tasks (tight deadlines, contention)
+    out.append({
+        "name": "edf_enforce",
+        "profiles": [P(5), P(2)],
+        "graphs": [{"name": "G0", "jobs": [{"name": "A", "profile": 0, "children": ["B"]}, {"name": "B", "profile": 1}],
+                    "policy": {"type": "fixed", "period": 1, "n": 4, "start": 0}, "dv": [0, 0]}],
+        "pools": one_gpu, "sched": {"kind": "edf", "runtime": 0, "enforce": True}, "flags": {"timeout": 300}, "seed": 2,
+    })
+    # closed loop refill
+    out.append({
+        "name": "closed_loop",
+        "profiles": [P(2)],
+        "graphs": [{"name": "G0", "jobs": [{"name": "A", "profile": 0, "children": ["B"]}, {"name": "B", "profile": 0}],
+                    "policy": {"type": "closed_loop", "conc": 2, "n": 5, "start": 1}, "dv": [0, 0]}],
+        "pools": [[[I("gpu", "g1", 1)], [I("gpu", "g2", 1)]]], "sched": {"kind": "fifo", "runtime": 0},
+        "flags": {"timeout": 3000, "expect_all_done": True}, "seed": 4,
+    })
+    # runtime variance and scheduler frequency / delay
+    out.append({
+        "name": "variance_frequency",
+        "profiles": [P(6), P(3)],
+        "graphs": [{"name": "G0", "jobs": shape_jobs("diamond", random.Random(2), 2), "policy": {"type": "fixed", "period": 4, "n": 3, "start": 2}, "dv": [10, 40]}],
+        "pools": [[[I("gpu", "g1", 1), I("gpu", "g2", 1)]]], "sched": {"kind": "lsf", "runtime": 0},
+        "flags": {"timeout": 3000, "variance": 50, "frequency": 3, "delay": 1, "expect_all_done": True}, "seed": 6,
+    })
+    for w in out:
+        w.setdefault("flags", {})
+    return out
+
+
+def finding_worlds():
+    """Worlds that exhibit recorded known findings (see known_findings.json)."""
+    gpu1 = [R("gpu", "any", 1)]
+    one_gpu = [[[I("gpu", "g1", 1)]]]
+    chain = [{"name": "A", "profile": 0, "children": ["B"]}, {"name": "B", "profile": 0}]
+    return [
+        {   # a policy cancels (or drops) a looked-ahead child of a conditional that has not completed: the
+            # probabilities of the conditional's children no longer add up to 1 -> ValueError at completion
+            "name": "cond_child_cancelled", "profiles": [{"name": "P0", "strats": [{"dem": gpu1, "rt": 3, "bs": 1}]}],
+            "graphs": [{"name": "G0", "jobs": shape_jobs("cond", random.Random(3), 1), "policy": {"type": "fixed", "period": 2, "n": 3, "start": 0}, "dv": [0, 0]}],
+            "pools": [[[I("gpu", "g1", 2)]]],
+            "sched": {"kind": "hostile", "runtime": 0, "cancel_rate": 0.5, "lookahead": 20, "cancel_cond_children": True},
+            "flags": {"timeout": 200, "drop_skipped": True}, "seed": 11,
+        },
+        {   # a zero-runtime strategy is never finished by Task.step: simulate() spins at t=0
+            "name": "zero_runtime_task", "profiles": [{"name": "P0", "strats": [{"dem": gpu1, "rt": 0, "bs": 1}]}],
+            "graphs": [{"name": "G0", "jobs": [{"name": "A", "profile": 0}], "policy": {"type": "fixed", "period": 1, "n": 1, "start": 0}, "dv": [0, 0]}],
+            "pools": one_gpu, "sched": {"kind": "edf", "runtime": 0}, "flags": {"timeout": 100}, "seed": 1,
+        },
+        {   # greedy policies place at the invocation time; with a scheduler runtime > 0 the simulator rejects it
+            "name": "greedy_nonzero_runtime", "profiles": [{"name": "P0", "strats": [{"dem": gpu1, "rt": 3, "bs": 1}]}],
+            "graphs": [{"name": "G0", "jobs": chain, "policy": {"type": "fixed", "period": 1, "n": 1, "start": 0}, "dv": [0, 0]}],
+            "pools": one_gpu, "sched": {"kind": "edf", "runtime": 1}, "flags": {"timeout": 100}, "seed": 1,
+        },
+    ]
